@@ -175,6 +175,22 @@ SEEDS.update({
 })
 
 
+SEEDS.update({
+ 'C02d': ('_possible_route decides on the first existing parent of a missing inbound task',
+          'a join whose inbound task has two parents; the first-listed parent completes without routing to it while the other is still pending'),
+ 'C09d': ('WorkflowAction.schedule splits input / params only when the child declares input',
+          'a child definition without an input section called with non-empty task input'),
+ 'C11d': ('stop_workflow: post_tx_queue.run outside retry_on_db_error',
+          'a cancel with an unfinished sub-workflow below plus one retriable DB error (deadlock) in the stop transaction'),
+ 'C15d': ('from_environ: is_admin by substring test on the raw X-Roles header',
+          'auth enabled and a non-admin role whose name contains "admin" (ResellerAdmin)'),
+ 'C16d': ('TasksController.put guard by is_valid_transition instead of "state is ERROR"',
+          'PUT state=RUNNING on a task that is CANCELLED / WAITING / IDLE / DELAYED / PAUSED'),
+ 'C20d': ('update_action_execution_heartbeat never moves last_heartbeat backwards',
+          'first_heartbeat_timeout > 0, a heartbeat inside the grace period, then a lost executor'),
+})
+
+
 def main():
     for sid, (change, needs) in SEEDS.items():
         d = os.path.join(ROOT, 'seeded', sid)
